@@ -137,7 +137,7 @@ class PWalker(Walker):
                 remaining = len(self.cur_list) - self._consumed if self.cur is not None else 0
                 return max(0, min(remaining, (1 << w) - 2))
             return self.policy.count(self, w, eid)
-        if eid == 31031:
+        if eid == 31031 and self.bm_state in ('expect', 'collecting'):
             return self.policy.bitmap_bit(self)
         if eid == 31021:
             return self.policy.significance(self, w)
